@@ -76,7 +76,7 @@ def classify(prop, t, line):
     ev = bad.get("ev", "?")
     case = {}
     if ev in ("obs", "restart"):
-        disk = {(x["e"], x["a"], x["p"]) for x in bad.get("disk", [])}
+        disk = {(x["e"], x["a"], x["p"]) for x in bad.get("disk", [])} | {(x["e"], x["a6"], x["p"]) for x in bad.get("disk", []) if x.get("a6")}
         own = {(x["e"], x["a"], x["p"]) for x in bad.get("own", [])}
         lost, ghost = sorted(disk - own), sorted(own - disk)
         case.update(record_without_owner=lost, owner_without_record=ghost, disk_differs_from_memory=bad.get("disk") != bad.get("mem"))
@@ -138,6 +138,7 @@ def tags(t):
         elif ev == "cl_end": s.add("cloud_call")
         elif ev in ("put_end", "del_end") and not r["ok"]: s.add("db_write_fault")
         elif ev == "env_disturb": s.add("gc_cleanup_fault")
+        elif ev == "reset" and r.get("conf", {}).get("v6"): s.add("dual_stack")
         elif ev == "reset" and r.get("conf", {}).get("realk8s"): s.add("real_k8s_client")
         elif ev == "k8s_podexist" and r["exist"] and "real_k8s_client" in s: s.add("watch_cache_lagged_behind_running_pod")
     return s
